@@ -569,6 +569,27 @@ theorem nls_forward_history (al ax pf : Bool) (fs gs : List Fn) (S0 : NState ℝ
                (evalAll gs (mkEnv x u ((runClock .nls S0.clock (pre.map NEv.toEv) : Int) : ℝ))) := by
   simp [stepN, nls_clock]
 
+/-- **The time handed to `f`, `g` is the clock itself, exactly** — an integer, whatever its size and whatever the dtype of
+the state: for every history there is an integer `n` (the clock-machine time, `clock_history`) such that the forward
+returns `f(x, u, n)`, `g(x, u, n)` and the time variable of the user's functions reads exactly `n`. -/
+theorem forward_time_exact (al ax pf : Bool) (fs gs : List Fn) (S0 : NState ℝ) (pre : List (NEv ℝ)) (x u : DVec ℝ) :
+    ∃ n : Int, n = runClock .nls S0.clock (pre.map NEv.toEv) ∧
+      (stepN al ax pf fs gs (runN al ax pf fs gs S0 pre) (.call x u)).2
+        = .outputs (evalAll fs (mkEnv x u (n : ℝ))) (evalAll gs (mkEnv x u (n : ℝ))) ∧
+      mkEnv x u ((n : Int) : ℝ) (x.length + u.length) = (n : ℝ) :=
+  ⟨_, rfl, nls_forward_history al ax pf fs gs S0 pre x u, mkEnv_time x u _⟩
+
+/-- different clock values are different times for `f`, `g` (no two integer times are merged, however large) -/
+theorem forward_time_injective (a b : Int) : (ofInt a : ℝ) = ofInt b ↔ a = b := by
+  simp
+
+/-- e.g. `f = t − 16777216` (exact integer arithmetic on the time stamp) tells `2^24` and `2^24 + 1` apart -/
+example : (Fn.sub (.var 2) (.const false 16777216 1)).eval (mkEnv [(0 : ℝ)] [(0 : ℝ)] (ofInt 16777217)) = 1 ∧
+    (Fn.sub (.var 2) (.const false 16777216 1)).eval (mkEnv [(0 : ℝ)] [(0 : ℝ)] (ofInt 16777216)) = 0 := by
+  constructor
+  · simp [Fn.eval, mkEnv]; norm_num
+  · simp [Fn.eval, mkEnv]
+
 /-- a `set_refpoint` that cannot resolve its arguments (no `forward` yet) raises -/
 theorem nls_refpoint_raises (al ax pf : Bool) (fs gs : List Fn) (c : Int) (u? : Option (DVec ℝ)) (tr : TRef ℝ) :
     ∃ S, stepN al ax pf fs gs (NState.init c) (.refpoint none u? tr) = (S, .raised) := by
